@@ -2,6 +2,7 @@ package rules
 
 import (
 	"fmt"
+	"go/constant"
 	"go/token"
 	"go/types"
 	"sort"
@@ -879,6 +880,96 @@ func init() {
 			}
 			if n < 2 {
 				x.C.Vacuous(x.id()+" cache accesses", n, 2)
+			}
+		}})
+}
+
+func init() {
+	register(&Rule{ID: "T4.route", Min: 3, Text: "the interceptors recognise their own services: each service predicate of package interceptors (isYorkieService, isAdminService, isClusterService — a strings.HasPrefix of the procedure against a constant) uses a constant that really is a prefix of every generated procedure name of that service (v1connect.<Service>…Procedure) and of none of another service; a predicate that never matches (a service name without the leading slash) switches the whole authentication of that service off for every caller, while requests with valid credentials behave as before. And the admin token check parses tokens with no time-validation option that widens the expiry (jwt.WithLeeway, WithoutClaimsValidation)",
+		Run: func(x *Ctx) {
+			// generated procedure constants per service
+			procs := map[string][]string{}
+			for path, pk := range x.P.ByPth {
+				if !strings.HasSuffix(path, "/v1connect") || pk.Types == nil {
+					continue
+				}
+				sc := pk.Types.Scope()
+				for _, name := range sc.Names() {
+					c, ok := sc.Lookup(name).(*types.Const)
+					if !ok || !strings.HasSuffix(name, "Procedure") || c.Val().Kind() != constant.String {
+						continue
+					}
+					for _, svc := range []string{"YorkieService", "AdminService", "ClusterService"} {
+						if strings.HasPrefix(name, svc) {
+							procs[svc] = append(procs[svc], constant.StringVal(c.Val()))
+						}
+					}
+				}
+			}
+			n := 0
+			for _, fn := range x.P.FuncsIn("server/rpc/interceptors") {
+				svc := ""
+				for _, s := range []string{"YorkieService", "AdminService", "ClusterService"} {
+					if fn.Name() == "is"+s {
+						svc = s
+					}
+				}
+				if svc == "" {
+					continue
+				}
+				n++
+				k := "func=" + prog.FnName(fn)
+				prefix, found := "", false
+				for _, c := range prog.CallsIn(fn) {
+					if o := prog.CallObj(c); o != nil && o.FullName() == "strings.HasPrefix" {
+						prefix, found = constString(c.Common().Args[1])
+					}
+				}
+				if !found || len(procs[svc]) == 0 {
+					x.fail(k+" prefix-constant", x.fpos(fn), "the predicate is no longer a strings.HasPrefix against a constant (or the generated procedure names of "+svc+" were not found)")
+					continue
+				}
+				okOwn, okOther := true, true
+				for _, p := range procs[svc] {
+					if !strings.HasPrefix(p, prefix) {
+						okOwn = false
+					}
+				}
+				for other, ps := range procs {
+					if other == svc {
+						continue
+					}
+					for _, p := range ps {
+						if strings.HasPrefix(p, prefix) {
+							okOther = false
+						}
+					}
+				}
+				x.check(okOwn, k+" matches-every-procedure-of-"+svc, x.fpos(fn), fmt.Sprintf("%q is a prefix of all %d generated procedures", prefix, len(procs[svc])), fmt.Sprintf("%q is not a prefix of the generated procedure names of %s (e.g. %q): the predicate never matches and the interceptor's authentication is skipped for every caller", prefix, svc, procs[svc][0]))
+				x.check(okOther, k+" matches-no-other-service", x.fpos(fn), "no procedure of another service matches", fmt.Sprintf("%q also matches procedures of another service", prefix))
+			}
+			// token validation options
+			for _, fn := range x.P.FuncsIn("server/rpc/auth") {
+				i := 0
+				for _, c := range prog.CallsIn(fn) {
+					o := prog.CallObj(c)
+					if o == nil || o.Pkg() == nil || !strings.Contains(o.Pkg().Path(), "golang-jwt") || !strings.HasPrefix(o.Name(), "Parse") {
+						continue
+					}
+					n++
+					i++
+					bad := ""
+					for _, d := range prog.CallsIn(fn) {
+						od := prog.CallObj(d)
+						if od != nil && od.Pkg() != nil && strings.Contains(od.Pkg().Path(), "golang-jwt") && (od.Name() == "WithLeeway" || od.Name() == "WithoutClaimsValidation" || od.Name() == "WithTimeFunc") {
+							bad = od.Name()
+						}
+					}
+					x.check(bad == "", fmt.Sprintf("func=%s parse#%d expiry-not-widened", prog.FnName(fn), i), x.pos(c), "tokens are parsed with the default time validation", "the token parser is given "+bad+": expired tokens keep authenticating")
+				}
+			}
+			if n < 3 {
+				x.C.Vacuous(x.id()+" predicates", n, 3)
 			}
 		}})
 }
